@@ -15,7 +15,7 @@ func init() {
 		{Name: "memory.fill reads its length signed", File: f, Old: "memset(&%s_memory[R%d.u32], R%d.i32, R%d.u32);", New: "memset(&%s_memory[R%d.u32], R%d.i32, R%d.i32);", Expect: "c-memory-address-unsigned :: memory.fill: length"},
 		{Name: "memory.copy through memcpy", File: f, Old: "%smemmove(&%s_memory[R%d.u32], &%s_memory[R%d.u32], R%d.u32);", New: "%smemcpy(&%s_memory[R%d.u32], &%s_memory[R%d.u32], R%d.u32);", Expect: "c-memory-copy-overlap :: memory.copy"},
 		{Name: "memory.init cuts the data with slot numbers", File: f, Old: "for _, x := range p.m.Data[i.DataIdx].Value {", New: "for _, x := range p.m.Data[i.DataIdx].Value[off:][:len] {", Expect: "slot-number-not-value :: wat2c wat2cWorker.buildFunc_ins"},
-		{Name: "f64.min through C's fmin", File: f, Old: "R%d.f64 = F_MIN(R%d.f64, R%d.f64);", New: "R%d.f64 = fmin(R%d.f64, R%d.f64);", Expect: "c-operator :: f64.min"},
+		{Name: "f64.min through C's fmin", File: f, Old: "R%d.f64 = F_MIN(R%d.f64, R%d.f64);", New: "R%d.f64 = fmin(R%d.f64, R%d.f64);", Expect: "c-template-semantics :: f64.min"},
 		{Name: "prelude not written for f32.min/max", File: "internal/wat/watutil/wat2c/wat2c_helper.go", Old: "\tcase token.INS_F32_MIN, token.INS_F32_MAX:\n\t\treturn true\n", New: "", Expect: "c-prelude-emitted-for-users :: f32.m"},
 		{Name: "C prelude: F_MIN orders the zeros the other way", File: "internal/wat/watutil/wat2c/_math_x.c", Old: "(signbit(x) ? (x) : (y))     \\\n   : ((x) < (y)) ? (x) : (y))", New: "(signbit(x) ? (y) : (x))     \\\n   : ((x) < (y)) ? (x) : (y))", Expect: "c-prelude-minmax :: F_MIN"},
 		{Name: "C prelude: F_MAX picks the smaller operand", File: "internal/wat/watutil/wat2c/_math_x.c", Old: ": ((x) > (y)) ? (x) : (y))", New: ": ((x) < (y)) ? (x) : (y))", Expect: "c-prelude-minmax :: F_MAX"},
@@ -28,6 +28,7 @@ func init() {
 		{Name: "f32.nearest rounds halves away from zero", File: f, Old: "R%d.f32 = rintf(R%d.f32);", New: "R%d.f32 = roundf(R%d.f32);", Expect: "c-template-semantics :: f32.nearest"},
 		{Name: "f64.convert_i64_u converts the signed view", File: f, Old: "R%d.f64 = (double)(R%d.u64);", New: "R%d.f64 = (double)(R%d.i64);", Expect: "c-template-semantics :: f64.convert_i64_u"},
 		{Name: "i32.shr_u masks the count with 63", File: f, Old: "R%d.i32 = (int32_t)((uint32_t)(R%d.i32)>>(uint32_t)(R%d.i32&31));", New: "R%d.i32 = (int32_t)((uint32_t)(R%d.i32)>>(uint32_t)(R%d.i32&63));", Expect: "c-template-semantics :: i32.shr_u"},
+		{Name: "module-level exports not copied into the functions", File: "internal/wat/watutil/wat2c/wat2c.go", Old: "\t\t\tif fn.Name == e.FuncIdx && fn.ExportName == \"\" {\n\t\t\t\tfn.ExportName = e.Name\n\t\t\t}\n", New: "\t\t\t_ = fn\n", Expect: "c-export-forms-normalised"},
 		{Name: "i32.const template ends in its comment without a newline", File: f, Old: "\"%sR%d.i32 = %d; // %s\\n\", indent, sp0, i.X, insString(i))", New: "\"%sR%d.i32 = %d; // %s\", indent, sp0, i.X, insString(i))", Expect: "line-terminated :: wat2c"},
 		{Name: "br_table locates the first result after popping them", File: f, Old: "\t\t\t\t\tfirstResultOffset := retIdxList[0]\n", New: "\t\t\t\t\tfirstResultOffset := stk.Len() - len(destScopeResults)\n", Expect: "carried-results-located :: wat2c INS_BR_TABLE"},
 		{Name: "br_table writes the moves before the case label", File: f, Old: "\t\t\t\t\t\tfmt.Fprintf(w, \"%s%s\\n\", indent, caseLabel)\n\t\t\t\t\t\tcaseLabel = \"\"\n", New: "", Expect: "switch-arm-statements-labelled :: wat2c INS_BR_TABLE: case label, results moved"},
@@ -44,22 +45,22 @@ func init() {
 		{Name: "val_t loses its unsigned 64-bit view", File: "internal/wat/watutil/wat2c/wat2c_code.go", Old: "\tfmt.Fprintf(w, \"  uint64_t  u64;\\n\")\n", New: "", Expect: "union-member-exists :: R<n>.u64"},
 		{Name: "f64 constants printed with %f", File: f, Old: "\"%sR%d.f64 = %x; // %s\\n\"", New: "\"%sR%d.f64 = %f; // %s\\n\"", Expect: "float-literal-exact"},
 		{Name: "br copies its results from the last to the first", File: f, Old: "\t\t\t\tfor i := 0; i < len(destScopeResults); i++ {\n\t\t\t\t\txType := destScopeResults[i]\n\t\t\t\t\treti := retIdxList[i]", New: "\t\t\t\tfor i := len(destScopeResults) - 1; i >= 0; i-- {\n\t\t\t\t\txType := destScopeResults[i]\n\t\t\t\t\treti := retIdxList[i]", Expect: "overlap-copy-direction"},
-		{Name: "i32.rem_s without the -1 guard", File: f, Old: "\"%sR%d.i32 = R%d.i32 %% ((R%d.i32 == -1)? 1: R%d.i32); // %s\\n\",\n\t\t\tindent, ret0, sp1, sp0, sp0,", New: "\"%sR%d.i32 = R%d.i32 %% R%d.i32; // %s\\n\",\n\t\t\tindent, ret0, sp1, sp0,", Expect: "c-operator :: i32.rem_s"},
+		{Name: "i32.rem_s without the -1 guard", File: f, Old: "\"%sR%d.i32 = R%d.i32 %% ((R%d.i32 == -1)? 1: R%d.i32); // %s\\n\",\n\t\t\tindent, ret0, sp1, sp0, sp0,", New: "\"%sR%d.i32 = R%d.i32 %% R%d.i32; // %s\\n\",\n\t\t\tindent, ret0, sp1, sp0,", Expect: "c-template-semantics :: i32.rem_s"},
 		{Name: "memory.grow stores the old size before it adds the delta", File: "internal/wat/watutil/wat2c/wat2c_func.go", Old: "\t\t\tfmt.Fprintf(w, \"%sint32_t temp = %s_memory_size;\\n\",\n\t\t\t\tindent+indent, p.opt.Prefix,\n\t\t\t)", New: "\t\t\tfmt.Fprintf(w, \"%sR%d.i32 = %s_memory_size;\\n\",\n\t\t\t\tindent+indent, ret0, p.opt.Prefix,\n\t\t\t)", Old2: "\t\t\tfmt.Fprintf(w, \"%sR%d.i32 = temp;\\n\",\n\t\t\t\tindent+indent, ret0,\n\t\t\t)\n", New2: "", Expect: "operand-read-after-result-write :: memory.grow"},
 		{Name: "br copies results only when they are above the current block's base", File: "internal/wat/watutil/wat2c/wat2c_func.go", Old: "\t\t\tif firstResultOffset > destScopeStackBase {", New: "\t\t\tif firstResultOffset > currentScopeStackBase {", Expect: "br-result-copy-guard"},
 		{Name: "data literal: 'F' after a hex escape not split off", File: "internal/wat/watutil/wat2c/wat2c_code.go", Old: "if prevIsHexEscape && x <= 'F' {", New: "if prevIsHexEscape && x < 'F' {", Expect: "c-data-literal"},
 		{Name: "data literal: double quote written raw", File: "internal/wat/watutil/wat2c/wat2c_code.go", Old: "\t\t\t\tsb.WriteString(\"\\\\\\\"\")", New: "\t\t\t\tsb.WriteString(\"\\\"\")", Expect: "c-data-literal"},
-		{Name: "i32.lt_u compares signed", File: f, Old: "R%d.i32 = ((uint32_t)(R%d.i32)<(uint32_t)(R%d.i32))? 1: 0;", New: "R%d.i32 = (R%d.i32<R%d.i32)? 1: 0;", Expect: "c-signedness :: i32.lt_u"},
-		{Name: "i64.sub operands swapped", File: f, Old: "fmt.Fprintf(w, \"%sR%d.i64 = (int64_t)((uint64_t)R%d.i64 - (uint64_t)R%d.i64); // %s\\n\",\n\t\t\tindent, ret0, sp1, sp0,", New: "fmt.Fprintf(w, \"%sR%d.i64 = (int64_t)((uint64_t)R%d.i64 - (uint64_t)R%d.i64); // %s\\n\",\n\t\t\tindent, ret0, sp0, sp1,", Expect: "c-operand-order :: i64.sub"},
-		{Name: "i64.shr_s mask 31", File: f, Old: "R%d.i64 = R%d.i64 >> (((uint64_t)R%d.i64)&63);", New: "R%d.i64 = R%d.i64 >> (((uint64_t)R%d.i64)&31);", Expect: "c-shift-mask :: i64.shr_s"},
-		{Name: "i32.ge_s uses >", File: f, Old: "R%d.i32 = (R%d.i32>=R%d.i32)? 1: 0;", New: "R%d.i32 = (R%d.i32>R%d.i32)? 1: 0;", Expect: "c-operator :: i32.ge_s"},
+		{Name: "i32.lt_u compares signed", File: f, Old: "R%d.i32 = ((uint32_t)(R%d.i32)<(uint32_t)(R%d.i32))? 1: 0;", New: "R%d.i32 = (R%d.i32<R%d.i32)? 1: 0;", Expect: "c-template-semantics :: i32.lt_u"},
+		{Name: "i64.sub operands swapped", File: f, Old: "fmt.Fprintf(w, \"%sR%d.i64 = (int64_t)((uint64_t)R%d.i64 - (uint64_t)R%d.i64); // %s\\n\",\n\t\t\tindent, ret0, sp1, sp0,", New: "fmt.Fprintf(w, \"%sR%d.i64 = (int64_t)((uint64_t)R%d.i64 - (uint64_t)R%d.i64); // %s\\n\",\n\t\t\tindent, ret0, sp0, sp1,", Expect: "c-template-semantics :: i64.sub"},
+		{Name: "i64.shr_s mask 31", File: f, Old: "R%d.i64 = R%d.i64 >> (((uint64_t)R%d.i64)&63);", New: "R%d.i64 = R%d.i64 >> (((uint64_t)R%d.i64)&31);", Expect: "c-template-semantics :: i64.shr_s"},
+		{Name: "i32.ge_s uses >", File: f, Old: "R%d.i32 = (R%d.i32>=R%d.i32)? 1: 0;", New: "R%d.i32 = (R%d.i32>R%d.i32)? 1: 0;", Expect: "c-template-semantics :: i32.ge_s"},
 		{Name: "f64.lt reads the f32 view", File: f, Old: "R%d.i32 = (R%d.f64<R%d.f64)? 1: 0;", New: "R%d.i32 = (R%d.f64<R%d.f32)? 1: 0;", Expect: "c-slot-type :: f64.lt"},
 		{Name: "i64.load16_s zero-extends", File: f, Old: "R%d.i64 = (int64_t)((int16_t)R_u16);", New: "R%d.i64 = (int64_t)((uint16_t)R_u16);", Expect: "c-load-extension :: i64.load16_s"},
 		{Name: "i32.load8_u copies two bytes", File: f, Old: "memcpy(&R_u8, &%s_memory[(uint64_t)R%d.u32+%d], 1); R%d.i32 = (int32_t)((uint8_t)R_u8);", New: "memcpy(&R_u8, &%s_memory[(uint64_t)R%d.u32+%d], 2); R%d.i32 = (int32_t)((uint8_t)R_u8);", Expect: "c-access-width :: i32.load8_u"},
-		{Name: "i64.trunc_f64_u goes through int32", File: f, Old: "R%d.i64 = (int64_t)(uint64_t)(trunc(R%d.f64));", New: "R%d.i64 = (int64_t)(uint32_t)(trunc(R%d.f64));", Expect: "c-conversion :: i64.trunc_f64_u"},
-		{Name: "f32.ceil uses floorf", File: f, Old: "R%d.f32 = ceilf(R%d.f32);", New: "R%d.f32 = floorf(R%d.f32);", Expect: "c-operator :: f32.ceil"},
-		{Name: "i32.rem_u divides", File: f, Old: "R%d.i32 = (int32_t)((uint32_t)(R%d.i32)%%(uint32_t)(R%d.i32));", New: "R%d.i32 = (int32_t)((uint32_t)(R%d.i32)/(uint32_t)(R%d.i32));", Expect: "c-operator :: i32.rem_u"},
-		{Name: "i64.extend_i32_u sign-extends", File: f, Old: "R%d.i64 = (int64_t)((uint32_t)(R%d.i32));", New: "R%d.i64 = (int64_t)((int32_t)(R%d.i32));", Expect: "c-conversion :: i64.extend_i32_u"},
+		{Name: "i64.trunc_f64_u goes through int32", File: f, Old: "R%d.i64 = (int64_t)(uint64_t)(trunc(R%d.f64));", New: "R%d.i64 = (int64_t)(uint32_t)(trunc(R%d.f64));", Expect: "c-template-semantics :: i64.trunc_f64_u"},
+		{Name: "f32.ceil uses floorf", File: f, Old: "R%d.f32 = ceilf(R%d.f32);", New: "R%d.f32 = floorf(R%d.f32);", Expect: "c-template-semantics :: f32.ceil"},
+		{Name: "i32.rem_u divides", File: f, Old: "R%d.i32 = (int32_t)((uint32_t)(R%d.i32)%%(uint32_t)(R%d.i32));", New: "R%d.i32 = (int32_t)((uint32_t)(R%d.i32)/(uint32_t)(R%d.i32));", Expect: "c-template-semantics :: i32.rem_u"},
+		{Name: "i64.extend_i32_u sign-extends", File: f, Old: "R%d.i64 = (int64_t)((uint32_t)(R%d.i32));", New: "R%d.i64 = (int64_t)((int32_t)(R%d.i32));", Expect: "c-template-semantics :: i64.extend_i32_u"},
 		{Name: "i32.store16 pops the address as value", File: f, Old: "case token.INS_I64_EQZ:\n\t\tsp0 := stk.Pop(token.I64)", New: "case token.INS_I64_EQZ:\n\t\tsp0 := stk.Pop(token.I32)", Expect: "stack-effect :: wat2c i64.eqz"},
 	}})
 }
@@ -149,10 +150,10 @@ func runC03(c *Ctx) {
 	c.Min("br-table-accepts-default-only", "br_table arm of wat2c", brTableAcceptsDefaultOnly(c, p, pk, "wat2c"), 1)
 	c.Min("float-literal-exact", "float values written into the generated C code", floatLiteralExact(c, p, pk, []string{"//"}, ""), 6)
 	c03MemoryTemplates(c, p, by)
+	c03ExportForms(c, p, pk)
 	c.Min("slot-number-not-value", "functions of wat2c that hold slot numbers", slotNumberNotValue(c, p, pk, "wat2c "), 2)
 	c03Prelude(c)
 	c03PreludeMinMax(c)
-	c03TemplateSemantics(c, p, by)
 	c03PreludeUsers(c, p, pk, by)
 	var names []string
 	for k := range ins {
@@ -163,6 +164,10 @@ func runC03(c *Ctx) {
 	cop := map[string]string{"add": "+", "sub": "-", "mul": "*", "div": "/", "div_s": "/", "div_u": "/", "rem_s": "%", "rem_u": "%", "and": "&", "or": "|", "xor": "^",
 		"eq": "==", "ne": "!=", "lt": "<", "gt": ">", "le": "<=", "ge": ">=", "lt_s": "<", "lt_u": "<", "gt_s": ">", "gt_u": ">", "le_s": "<=", "le_u": "<=", "ge_s": ">=", "ge_u": ">="}
 	libm := map[string]string{"abs": "fabs", "ceil": "ceil", "floor": "floor", "trunc": "trunc", "nearest": "rint", "sqrt": "sqrt", "min": "F_MIN", "max": "F_MAX", "copysign": "copysign"}
+	// the numeric arms are decided by evaluation first (c03_csim.go); for an arm that evaluation decides, the shape
+	// rules below (operator, casts, mask, operand order, cast chain) are not applied: an equivalent C expression would
+	// trip them, and the evaluation sees the stored value itself
+	semDecided := c03TemplateSemantics(c, p, by)
 	nops := 0
 	for _, k := range names {
 		m := ins[k]
@@ -172,6 +177,15 @@ func runC03(c *Ctx) {
 			continue
 		}
 		loc := p.Pos(a.Arm.Clause.Pos())
+		shapeCheck := func(cond bool, rule, construct, loc, okd, bad string) {
+			if semDecided[m] {
+				if !cond {
+					c.Note("shape rule [%s] not applied to %s (the arm is decided by evaluation): %s", rule, construct, bad)
+				}
+				return
+			}
+			c.Check(cond, rule, construct, loc, okd, bad)
+		}
 		for _, v := range a.Variants {
 			varType := map[string]string{}
 			for _, o := range v.Ops {
@@ -222,7 +236,7 @@ func runC03(c *Ctx) {
 						first = r.Arg
 					}
 				}
-				c.Check(first == v.varOf("pop", 1), "c-operand-order", m, loc, "left operand is the second popped slot",
+				shapeCheck(first == v.varOf("pop", 1), "c-operand-order", m, loc, "left operand is the second popped slot",
 					fmt.Sprintf("template for the non-commutative %s has %s as its left operand; the left operand is the second popped slot (%s)", m, first, v.varOf("pop", 1)))
 			}
 			if strings.Contains(op, "store") && len(v.pops()) == 2 {
@@ -292,27 +306,27 @@ func runC03(c *Ctx) {
 					mm := re.FindStringSubmatch(got)
 					wantMask := map[string]string{"32": "31", "64": "63"}[width]
 					if mm == nil {
-						c.Fail("c-shift-mask", m, loc, "shift count of "+m+" is not masked: counts >= "+width+" are undefined behaviour in C (WebAssembly takes the count modulo "+width+")")
+						shapeCheck(false, "c-shift-mask", m, loc, "masked", "shift count of "+m+" is not masked: counts >= "+width+" are undefined behaviour in C (WebAssembly takes the count modulo "+width+")")
 					} else {
-						c.Check(mm[1] == wantMask, "c-shift-mask", m, loc, "count & "+mm[1], fmt.Sprintf("shift count of %s is masked with %s; WebAssembly takes it modulo %s (mask %s)", m, mm[1], width, wantMask))
+						shapeCheck(mm[1] == wantMask, "c-shift-mask", m, loc, "count & "+mm[1], fmt.Sprintf("shift count of %s is masked with %s; WebAssembly takes it modulo %s (mask %s)", m, mm[1], width, wantMask))
 						got = re.ReplaceAllString(got, "&MASK;")
 					}
 				}
-				c.Check(got == want, "c-operator", m, loc, "template computes "+want, fmt.Sprintf("template for %s computes `%s` (casts and parentheses removed); expected the shape `%s`", m, got, want))
+				shapeCheck(got == want, "c-operator", m, loc, "template computes "+want, fmt.Sprintf("template for %s computes `%s` (casts and parentheses removed); expected the shape `%s`", m, got, want))
 			}
 			// signedness
 			if isInt && (strings.HasSuffix(op, "_u") || strings.HasSuffix(op, "_s")) && !strings.Contains(op, "load") && !strings.HasPrefix(op, "trunc") && !strings.HasPrefix(op, "extend") {
 				un := strings.Count(line.Format, "(uint"+width+"_t)")
 				operands := len(v.pops())
 				if strings.HasSuffix(op, "_u") {
-					c.Check(un >= operands, "c-signedness", m, loc, "operands are cast to unsigned", fmt.Sprintf("unsigned instruction %s computes on %d unsigned-cast operands of %d: the C operator is applied to signed views", m, un, operands))
+					shapeCheck(un >= operands, "c-signedness", m, loc, "operands are cast to unsigned", fmt.Sprintf("unsigned instruction %s computes on %d unsigned-cast operands of %d: the C operator is applied to signed views", m, un, operands))
 				} else {
 					// for shifts only the shifted value matters (the count is masked and non-negative either way)
 					scope := line.Format
 					if i := strings.Index(scope, ">>"); op == "shr_s" && i >= 0 {
 						scope = scope[:i]
 					}
-					c.Check(!strings.Contains(scope, "(uint"), "c-signedness", m, loc, "no unsigned cast", "signed instruction "+m+" casts its (left) operand to an unsigned type")
+					shapeCheck(!strings.Contains(scope, "(uint"), "c-signedness", m, loc, "no unsigned cast", "signed instruction "+m+" casts its (left) operand to an unsigned type")
 				}
 			}
 			// narrow loads
@@ -378,7 +392,7 @@ func runC03(c *Ctx) {
 						good, why = false, "wrap must cast to int32_t"
 					}
 				}
-				c.Check(good, "c-conversion", m, loc, "cast chain "+strings.Join(casts, ""), fmt.Sprintf("conversion template for %s: %s (%s)", m, why, strings.TrimSpace(line.Format)))
+				shapeCheck(good, "c-conversion", m, loc, "cast chain "+strings.Join(casts, ""), fmt.Sprintf("conversion template for %s: %s (%s)", m, why, strings.TrimSpace(line.Format)))
 			}
 			if !isInt && strings.HasPrefix(op, "convert_i") {
 				// unsigned sources must read the unsigned view
@@ -396,7 +410,7 @@ func runC03(c *Ctx) {
 						good = true
 					}
 				}
-				c.Check(good, "c-conversion", m, loc, "reads ."+wantField, fmt.Sprintf("%s must read the source through the .%s view", m, wantField))
+				shapeCheck(good, "c-conversion", m, loc, "reads ."+wantField, fmt.Sprintf("%s must read the source through the .%s view", m, wantField))
 			}
 		}
 	}
